@@ -44,6 +44,8 @@ class Ctx(object):
 
     def reset(self, cfg):
         self.cfg = cfg
+        simfs.VCWD[0] = None            # (before the disk is wiped: nothing of the previous run's directory applies any more)
+        simfs._o_chdir("/")
         self.fs = simfs.SimFS(self)
         self.order_seed = int(cfg.get("order_seed", 0))
         self.simset_mode = cfg.get("simset", "insertion")
@@ -60,6 +62,15 @@ class Ctx(object):
         self.known_hits = {}
         self.dump_hashes = []
         self.real_set = bool(cfg.get("real_set"))
+        # current directory of the run: "/" (relative paths are not used) or a directory under the virtual root
+        cwd = cfg.get("cwd")
+        simfs.VCWD[0] = None
+        if cwd and simfs.under_root(cwd):
+            self.fs.mkdirs(cwd)
+            simfs._o_chdir(simfs.to_real(cwd))
+            simfs.VCWD[0] = cwd
+        else:
+            simfs._o_chdir("/")
         if _installed:
             import builtins
             for name in SET_MODULES:
@@ -202,7 +213,7 @@ def make_set(iterable=()):
 # interposition: builtins.open / io.open and the os.* functions that take a path
 # --------------------------------------------------------------------------
 def _sim_open(file, mode="r", *a, **kw):
-    if not isinstance(file, int):
+    if not isinstance(file, int) and kw.get("opener") is None:
         try:
             p = _real_os.fspath(file)
         except TypeError:
@@ -221,6 +232,8 @@ def _wrap1(name):
     orig = simfs._o[name]
 
     def w(path, *a, **kw):
+        if kw.get("dir_fd") is not None:
+            return orig(path, *a, **kw)         # relative to an open directory, not to the current one: the kernel's business
         return orig(simfs.translate(path), *a, **kw)
     w.__name__ = name
     return w
@@ -230,6 +243,8 @@ def _wrap2(name):
     orig = simfs._o[name]
 
     def w(src, dst, *a, **kw):
+        if kw.get("dir_fd") is not None or kw.get("src_dir_fd") is not None or kw.get("dst_dir_fd") is not None:
+            return orig(src, dst, *a, **kw)
         return orig(simfs.translate(src), simfs.translate(dst), *a, **kw)
     w.__name__ = name
     return w
@@ -246,12 +261,14 @@ def _sim_listdir(path="."):
 
 
 def _sim_os_open(path, flags, mode=0o777, **kw):
+    if kw.get("dir_fd") is not None:
+        return simfs._o["open"](path, flags, mode, **kw)
     try:
         p = _real_os.fspath(path)
     except TypeError:
         p = None
     if isinstance(p, str) and simfs.under_root(p):
-        sim = simfs.norm(p)
+        sim = simfs.norm(simfs.resolve(p))
         if flags & (_real_os.O_WRONLY | _real_os.O_RDWR):
             CTX.fs.trace.append(("open_w", sim, "os.open"))
         else:
@@ -297,7 +314,7 @@ def _sim_scandir(path="."):
         elif fs.listdir_mode == "shuffle" and fs.listdir_rng is not None:
             fs.listdir_rng.shuffle(entries)
             fs.fired("F7.listdir_order")
-        fs.trace.append(("scandir", simfs.norm(p), len(entries)))
+        fs.trace.append(("scandir", simfs.norm(simfs.resolve(p)), len(entries)))
         return _SimScandir(entries)
     return simfs._o["scandir"](path)
 
